@@ -34,6 +34,12 @@ pub trait Ix: Default + Send + Sync {
    /// reads through the combined (total + delta) view
    fn combined_get(total: &Self, delta: &Self, k: u8) -> Option<Vec<u8>>;
    fn combined_all(total: &Self, delta: &Self) -> Vec<(u8, Vec<u8>)>;
+   /// the same reads through the parallel interface (`c_index_get` / `c_iter_all`), which generated parallel code uses;
+   /// the serial types have no such interface and answer through the serial one
+   fn c_get(&self, k: u8) -> Option<Vec<u8>> { self.get(k) }
+   fn c_all(&self) -> Vec<(u8, Vec<u8>)> { self.all() }
+   fn c_combined_get(total: &Self, delta: &Self, k: u8) -> Option<Vec<u8>> { Self::combined_get(total, delta, k) }
+   fn c_combined_all(total: &Self, delta: &Self) -> Vec<(u8, Vec<u8>)> { Self::combined_all(total, delta) }
 }
 
 fn sorted(mut v: Vec<u8>) -> Vec<u8> {
@@ -78,6 +84,22 @@ impl Ix for CRelIndex<(u8,), (u8,)> {
    fn merge(new: &mut Self, delta: &mut Self, total: &mut Self) { RelIndexMerge::merge_delta_to_total_new_to_delta(new, delta, total) }
    fn freeze(&mut self) { Freezable::freeze(self) }
    fn unfreeze(&mut self) { Freezable::unfreeze(self) }
+   fn c_get(&self, k: u8) -> Option<Vec<u8>> {
+      use rayon::prelude::*;
+      CRelIndexRead::c_index_get(self, &(k,)).map(|it| sorted(it.map(|v| v.0).collect::<Vec<u8>>()))
+   }
+   fn c_all(&self) -> Vec<(u8, Vec<u8>)> {
+      use rayon::prelude::*;
+      CRelIndexReadAll::c_iter_all(self).map(|(k, vs)| (k.0, sorted(vs.map(|v| v.0).collect::<Vec<u8>>()))).collect()
+   }
+   fn c_combined_get(total: &Self, delta: &Self, k: u8) -> Option<Vec<u8>> {
+      use rayon::prelude::*;
+      CRelIndexRead::c_index_get(&RelIndexCombined::new(total, delta), &(k,)).map(|it| sorted(it.map(|v| v.0).collect::<Vec<u8>>()))
+   }
+   fn c_combined_all(total: &Self, delta: &Self) -> Vec<(u8, Vec<u8>)> {
+      use rayon::prelude::*;
+      CRelIndexReadAll::c_iter_all(&RelIndexCombined::new(total, delta)).map(|(k, vs)| (k.0, sorted(vs.map(|v| v.0).collect::<Vec<u8>>()))).collect()
+   }
    keyed_reads!();
 }
 
@@ -95,6 +117,22 @@ impl Ix for CLatIndex<(u8,), (u8,)> {
    fn is_empty(&self) -> bool { RelIndexRead::is_empty(self) }
    fn combined_get(total: &Self, delta: &Self, k: u8) -> Option<Vec<u8>> {
       RelIndexCombined::new(total, delta).index_get(&(k,)).map(|it| sorted(it.map(|v| v.0).collect()))
+   }
+   fn c_get(&self, k: u8) -> Option<Vec<u8>> {
+      use rayon::prelude::*;
+      CRelIndexRead::c_index_get(self, &(k,)).map(|it| sorted(it.map(|v| v.0).collect::<Vec<u8>>()))
+   }
+   fn c_all(&self) -> Vec<(u8, Vec<u8>)> {
+      use rayon::prelude::*;
+      CRelIndexReadAll::c_iter_all(self).map(|(k, vs)| (k.0, sorted(vs.map(|v| v.0).collect::<Vec<u8>>()))).collect()
+   }
+   fn c_combined_get(total: &Self, delta: &Self, k: u8) -> Option<Vec<u8>> {
+      use rayon::prelude::*;
+      CRelIndexRead::c_index_get(&RelIndexCombined::new(total, delta), &(k,)).map(|it| sorted(it.map(|v| v.0).collect::<Vec<u8>>()))
+   }
+   fn c_combined_all(total: &Self, delta: &Self) -> Vec<(u8, Vec<u8>)> {
+      use rayon::prelude::*;
+      CRelIndexReadAll::c_iter_all(&RelIndexCombined::new(total, delta)).map(|(k, vs)| (k.0, sorted(vs.map(|v| v.0).collect::<Vec<u8>>()))).collect()
    }
    fn combined_all(total: &Self, delta: &Self) -> Vec<(u8, Vec<u8>)> {
       // (CLatIndex::iter_all yields values, not references: the combined view is read per version)
@@ -145,6 +183,22 @@ impl Ix for CRelFullIndex<(u8,), u8> {
       out.extend(delta.all());
       out
    }
+   fn c_get(&self, k: u8) -> Option<Vec<u8>> {
+      use rayon::prelude::*;
+      CRelIndexRead::c_index_get(self, &(k,)).map(|it| it.map(|v| *v).collect::<Vec<u8>>())
+   }
+   fn c_all(&self) -> Vec<(u8, Vec<u8>)> {
+      use rayon::prelude::*;
+      CRelIndexReadAll::c_iter_all(self).map(|(k, vs)| (k.0, vs.map(|v| *v).collect::<Vec<u8>>())).collect()
+   }
+   fn c_combined_get(total: &Self, delta: &Self, k: u8) -> Option<Vec<u8>> {
+      use rayon::prelude::*;
+      CRelIndexRead::c_index_get(&RelIndexCombined::new(total, delta), &(k,)).map(|it| sorted(it.map(|v| *v).collect::<Vec<u8>>()))
+   }
+   fn c_combined_all(total: &Self, delta: &Self) -> Vec<(u8, Vec<u8>)> {
+      use rayon::prelude::*;
+      CRelIndexReadAll::c_iter_all(&RelIndexCombined::new(total, delta)).map(|(k, vs)| (k.0, vs.map(|v| *v).collect::<Vec<u8>>())).collect()
+   }
    full_reads!();
 }
 
@@ -176,6 +230,22 @@ impl Ix for CRelNoIndex<(u8,)> {
    fn get(&self, _k: u8) -> Option<Vec<u8>> { RelIndexRead::index_get(self, &()).map(|it| sorted(it.map(|v| v.0).collect())) }
    fn all(&self) -> Vec<(u8, Vec<u8>)> { RelIndexReadAll::iter_all(self).map(|(_, vs)| (0, sorted(vs.map(|v| v.0).collect()))).collect() }
    fn is_empty(&self) -> bool { RelIndexRead::is_empty(self) }
+   fn c_get(&self, _k: u8) -> Option<Vec<u8>> {
+      use rayon::prelude::*;
+      CRelIndexRead::c_index_get(self, &()).map(|it| sorted(it.map(|v| v.0).collect::<Vec<u8>>()))
+   }
+   fn c_all(&self) -> Vec<(u8, Vec<u8>)> {
+      use rayon::prelude::*;
+      CRelIndexReadAll::c_iter_all(self).map(|(_, vs)| (0u8, sorted(vs.map(|v| v.0).collect::<Vec<u8>>()))).collect()
+   }
+   fn c_combined_get(total: &Self, delta: &Self, _k: u8) -> Option<Vec<u8>> {
+      use rayon::prelude::*;
+      CRelIndexRead::c_index_get(&RelIndexCombined::new(total, delta), &()).map(|it| sorted(it.map(|v| v.0).collect::<Vec<u8>>()))
+   }
+   fn c_combined_all(total: &Self, delta: &Self) -> Vec<(u8, Vec<u8>)> {
+      use rayon::prelude::*;
+      CRelIndexReadAll::c_iter_all(&RelIndexCombined::new(total, delta)).map(|(_, vs)| (0u8, sorted(vs.map(|v| v.0).collect::<Vec<u8>>()))).collect()
+   }
    fn combined_get(total: &Self, delta: &Self, _k: u8) -> Option<Vec<u8>> {
       RelIndexCombined::new(total, delta).index_get(&()).map(|it| sorted(it.map(|v| v.0).collect()))
    }
@@ -238,6 +308,27 @@ fn check_reads<T: Ix>(what: &str, ix: &T, m: &Mm, ops: &[Op], step: usize) -> Re
          if c != want.is_some() {
             return Err(format!("{}: contains_key({k}) on {what} = {c} (step {step} of {ops:?})", T::NAME));
          }
+      }
+   }
+   if T::CONCURRENT {
+      // the parallel read interface answers like the model too
+      for k in 0..7u8 {
+         let got = catch(|| ix.c_get(k)).map_err(|e| format!("{}: c_index_get panicked: {e}", T::NAME))?;
+         let kk = if T::NOKEY { 0 } else { k };
+         let want = model_get(m, kk);
+         let got_norm = got.clone().filter(|v| !v.is_empty() || T::NOKEY);
+         let want_norm = if T::NOKEY { Some(want.clone().unwrap_or_default()) } else { want.clone() };
+         if got_norm != want_norm {
+            return Err(format!("{}: c_index_get({k}) on {what} = {got:?}, model {want:?} (step {step} of {ops:?})", T::NAME));
+         }
+      }
+      let mut by_key: Mm = BTreeMap::new();
+      for (k, vs) in catch(|| ix.c_all()).map_err(|e| format!("{}: c_iter_all on {what} panicked: {e}", T::NAME))? {
+         by_key.entry(k).or_default().extend(vs);
+      }
+      let by_key: Mm = by_key.into_iter().filter(|(_, v)| !v.is_empty()).map(|(k, v)| (k, sorted(v))).collect();
+      if by_key != want {
+         return Err(format!("{}: c_iter_all on {what} = {by_key:?}, model {want:?} (step {step} of {ops:?})", T::NAME));
       }
    }
    let e = catch(|| ix.is_empty()).map_err(|e| format!("{}: is_empty panicked: {e}", T::NAME))?;
@@ -377,6 +468,33 @@ fn run_history_with<T: Ix>(ops: &[Op], new: T, delta: T, total: T, spread: bool)
                let got = catch(|| T::combined_get(&total, &delta, k)).map_err(|e| format!("{}: combined index_get panicked: {e}", T::NAME))?;
                if got.clone().unwrap_or_default() != want || (got.is_none() && !want.is_empty()) {
                   return Err(format!("{}: combined index_get({k}) = {got:?}, model {want:?} (step {step} of {ops:?})", T::NAME));
+               }
+            }
+            if T::CONCURRENT {
+               for k in 0..7u8 {
+                  let kk = if T::NOKEY { 0 } else { k };
+                  let mut want = mt.get(&kk).cloned().unwrap_or_default();
+                  want.extend(md.get(&kk).cloned().unwrap_or_default());
+                  let want = sorted(want);
+                  let got = catch(|| T::c_combined_get(&total, &delta, k)).map_err(|e| format!("{}: combined c_index_get panicked: {e}", T::NAME))?;
+                  if got.clone().unwrap_or_default() != want || (got.is_none() && !want.is_empty()) {
+                     return Err(format!("{}: combined c_index_get({k}) = {got:?}, model {want:?} (total {mt:?}, delta {md:?}; step {step} of {ops:?})", T::NAME));
+                  }
+               }
+               let mut comb: Mm = BTreeMap::new();
+               for (k, vs) in catch(|| T::c_combined_all(&total, &delta)).map_err(|e| format!("{}: combined c_iter_all panicked: {e}", T::NAME))? {
+                  comb.entry(k).or_default().extend(vs);
+               }
+               let comb: Mm = comb.into_iter().filter(|(_, v)| !v.is_empty()).map(|(k, v)| (k, sorted(v))).collect();
+               let mut want: Mm = BTreeMap::new();
+               for m in [&mt, &md] {
+                  for (k, vs) in m {
+                     want.entry(*k).or_default().extend(vs.iter().cloned());
+                  }
+               }
+               let want: Mm = want.into_iter().filter(|(_, v)| !v.is_empty()).map(|(k, v)| (k, sorted(v))).collect();
+               if comb != want {
+                  return Err(format!("{}: combined c_iter_all = {comb:?}, model {want:?} (step {step} of {ops:?})", T::NAME));
                }
             }
             let mut comb: Mm = BTreeMap::new();
